@@ -197,6 +197,8 @@ type FixPkg struct{ Path, Name string }
 var FixturePkgs = []FixPkg{
 	{"fixt/pa", "pa"}, {"fixt/pb", "pb"}, {"fixt/deep/pa", "pa"}, {"fixt/x-y.v2", "xy"}, {"fixt/fmt", "fmt"}, {"fixt/os", "os"},
 	{"aaa.test/lib", "lib"}, {"zzz.test/lib", "lib"},
+	// the last path element looks like `package.Exported`: only the whole text before the last dot of an unquoted reference is the path
+	{"fixt/lib.Ext", "libext"}, {"fixt/my.Lib/v2.Beta", "v2beta"},
 }
 
 // File is one input file of a run.
